@@ -15,7 +15,8 @@ from .c08 import zoo, walk_states
 
 REQUIRED = ["run_refs_members", "refs_eq_members", "flow_facts"]
 METHODS = [(zipfile.ZIP_STORED, None), (zipfile.ZIP_DEFLATED, None), (zipfile.ZIP_DEFLATED, 1), (zipfile.ZIP_DEFLATED, 9),
-           (zipfile.ZIP_BZIP2, None), (zipfile.ZIP_BZIP2, 1), (zipfile.ZIP_LZMA, None)]
+           (zipfile.ZIP_BZIP2, None), (zipfile.ZIP_BZIP2, 1), (zipfile.ZIP_LZMA, None),
+           (zipfile.ZIP_DEFLATED, 0), (zipfile.ZIP_DEFLATED, -1), (zipfile.ZIP_BZIP2, 9), (zipfile.ZIP_STORED, 5), (zipfile.ZIP_LZMA, 3)]
 
 
 def wellformed(data):
@@ -90,6 +91,9 @@ def run(ctx):
 
     g = objgen.G(ctx.rng)
     objs = [(name, o) for name, o in zoo()]
+    # objects whose state is a temporary scalar (ids of temporaries are reused within one dump)
+    objs.append(("scalar-states", [objgen.U.ScalarState(1000.25 + i) for i in range(8)]))
+    objs.append(("scalar-states-nested", {"a": [objgen.U.ScalarState(0.5), objgen.U.ScalarState(1.5)] * 3, "b": (objgen.U.ScalarState(2.5),)}))
     for i in range(ctx.budget(60, 700)):
         v, sup = g.value(0, supported=True)
         objs.append((f"gen{i}", v))
@@ -181,6 +185,11 @@ def run(ctx):
                         ofails.append((f"sink-unloadable: archive written to {sink} with {method}/{level} cannot be loaded ({type(ex).__name__})", rep))
                     if len(samples) < 2:
                         samples.append(dict(object=name, sink=sink, method=method, members=sorted(members)[:4], bytes=len(data)))
+            # last, because the comparison itself touches the object (reading __dict__ of a functools.partial creates it)
+            dd = same(obj, base_obj)
+            if dd:
+                ofails.append((f"archive-loads-differently: the archive returned by dumps() loads to an object that differs from the one written: {dd}",
+                               dict(kind="object", object=name, repr=repr(obj)[:800], sink="dumps", method="STORED")))
             if len(ofails) > 5:
                 break
     finally:
